@@ -84,6 +84,8 @@ SITES = {
                                  parent="src/core/serialization/mod.rs", modpath="core::serialization::verif_k5"),
     "keys_model2": dict(file="keys_model2.rs", include=["common.rs"], modname="verif_k6",
                         parent="src/core/primitives.rs", modpath="core::primitives::verif_k6"),
+    "serialization_min": dict(file="serialization_min.rs", include=["common.rs"], modname="verif_k7",
+                              parent="src/core/serialization/mod.rs", modpath="core::serialization::verif_k7"),
     "policy_model": dict(file="policy_model.rs", include=["common.rs"], parent="src/abe_policy/access_structure.rs",
                          modpath="abe_policy::access_structure::verif_k"),
 }
@@ -157,6 +159,13 @@ H("y_full_decaps_1x1", "primitives_model", ["C18"], "quick", build="model", unwi
   desc="full_decaps on an honest 1-target encapsulation: Ok(same secret, {that right}) iff the right's secret is activated",
   bounds=K_BOUNDS + "; master key with that 1 right x 1 secret, activation flag symbolic",
   covers=["right activated", "right disabled"])
+H("y_full_decaps_2x2", "primitives_model2", ["C18"], "thorough", build="model", unwind=3, timeout=2400, heavy=True,
+  loops=TRAP_LOOPS + [[r"std::option::Option<", 4]],
+  desc="full_decaps on an honest classic 2-target encapsulation, master key holding both rights: the audience is exactly "
+       "the set of targeted rights whose secret is activated (not a subset), with the encapsulated secret; Err iff none is",
+  bounds="tracing level 1 (2 tracers), 2 target rights, master key with those 2 rights x 1 secret (distinct secrets), both "
+         "activation flags, all scalars, the seed, every RNG draw (incl. the shuffle) and every oracle output symbolic",
+  covers=["both rights activated", "one right disabled", "both rights disabled"])
 H("h_select_subkeys_mode", "primitives_model", ["C11", "C09"], "quick", build="model", unwind=4, timeout=1500, loops=SMALL_CMP,
   desc="MasterPublicKey::select_subkeys: the encapsulation is hybridized iff every targeted right is; a right with no "
        "published key is an error",
@@ -295,10 +304,19 @@ for _n in ["z_xenc_roundtrip", "z_usk_roundtrip", "z_msk_roundtrip", "z_mpk_roun
     H(_n, "serialization_model", ["DEV"], "quick", build="model", unwind=4, timeout=1500, loops=CMP34, desc="dev", bounds="dev")
 for _n in ["zn_msk_flags_roundtrip", "zn_usk_roundtrip", "zn_mpk_roundtrip", "zn_xenc_roundtrip"]:
     H(_n, "serialization_narrow", ["DEV"], "quick", build="model", unwind=4, timeout=900, loops=CMP34, desc="dev", bounds="dev")
+_WIRE = ("explicit wire image W(v) of a minimal shape: no id marker / tracing point / tracer / user, one right with the empty "
+         "name and a chain of 2 revisions (newest classic, oldest hybridized), no trailing signature / signing key, empty "
+         "access structure; every secret value%s a solver variable")
+H("zr_usk_min_read", "serialization_min", ["C13"], "quick", build="model", unwind=4, timeout=900, loops=CMP34,
+  covers=["two different revisions"],
+  desc="UserSecretKey::read(W(v)) consumes every byte and returns v: chain order, flavour and value of each revision",
+  bounds=_WIRE % "")
+# (zw_usk_min_write, zr_msk_min_read, zw_msk_min_write -- the write half and the master-key halves on the same minimal shape --
+# passed 12-22 GB without finishing in 830 s; development entries)
+for _n in ["zw_usk_min_write", "zr_msk_min_read", "zw_msk_min_write"]:
+    H(_n, "serialization_min", ["DEV"], "quick", build="model", unwind=4, timeout=900, loops=CMP34, desc="dev", bounds="dev")
 for _n in ["zr_usk_read_layout", "zw_usk_write_layout", "zr_msk_read_layout"]:
     H(_n, "serialization_layout", ["DEV"], "quick", build="model", unwind=4, timeout=1200, loops=CMP34, desc="dev", bounds="dev")
-H("y_full_decaps_2x2", "primitives_model2", ["DEV"], "quick", build="model", unwind=3, timeout=1800,
-  loops=TRAP_LOOPS + [[r"std::option::Option<", 4]], desc="dev", bounds="dev")
 for _n in ["f_verify_detects_value_changes", "f_sign_order_matters", "f_sign_reframing_chain_split"]:
     H(_n, "primitives_model", ["DEV"], "quick", build="model", unwind=4, timeout=1500, loops=SMALL_CMP, desc="dev", bounds="dev")
 
@@ -327,14 +345,16 @@ CHECKS = {
                 outside="failures caused by serialization errors (unreachable), states with >2 rights"),
     "C11": dict(bounds_note="hint algebra tables; flavour through rekey/update/mpk/serialization; encapsulation mode selection",
                 outside="combine() over a structure (policy layer), E_j bound into the tag for hybridized encapsulations"),
+    "C13": dict(bounds_note="read half only, one type, one minimal shape: UserSecretKey::read on the explicit wire image W(v) of a key with one right (empty name) and a chain of 2 revisions (newest classic, oldest hybridized), all secret values symbolic: every byte consumed, chain order / flavour / value of each revision as on the wire",
+                outside="the write half and length() (harness times out), MasterSecretKey (both halves time out), MasterPublicKey, XEnc, headers, AccessStructure / Dimension; ids, tracing points, right names, trailing signature; more than one right, chains > 2; use of a deserialized key in later operations; bytes of the pinned release beyond the layout W spelled out in the harness"),
     "C14": dict(bounds_note="UserId / TracingPublicKey parsers on every byte string <= 6 bytes; accessors and decaps on degenerate parsed values; revision iterator on a key without chains",
                 outside="XEnc / USK parsers beyond the thorough-tier lengths, MPK/MSK/AccessStructure/EncryptedHeader parsers, read_vec's vec![0; len] in the dependency, wall-clock/RSS of a real process"),
     "C15": dict(bounds_note="find_matching_closing_parenthesis on all UTF-8 strings <= 4 bytes",
                 outside="AccessPolicy::parse itself, QualifiedAttribute::try_from and to_dnf equivalence (harnesses timed out), precedence"),
     "C16": dict(bounds_note="two c_encaps calls with different seeds (1 target); two consecutive generate_user_id calls with symbolic RNG",
                 outside="AEAD nonce freshness, rekey freshness, statistical quality of the CSPRNG, threads"),
-    "C18": dict(bounds_note="full_decaps on an honest classic 1-target encapsulation, master key with that right (flag symbolic)",
-                outside="several rights/revisions, hybridized, pruned or deleted rights, the recaps = full_decaps + encaps composition"),
+    "C18": dict(bounds_note="full_decaps on an honest classic 1-target encapsulation, master key with that right (flag symbolic); thorough tier: 2 targets, master key with both rights (both flags symbolic)",
+                outside="several revisions per right, more than 2 targets, hybridized, pruned or deleted rights, the recaps = full_decaps + encaps composition"),
     "C17": dict(bounds_note="generate_user_id / refresh_id with tracing level 1; tracers in mpk; ids through MSK/USK round trips",
                 outside="tracing levels > 1, histories of several keys"),
 }
